@@ -61,6 +61,11 @@ class GenM(B.GenX):
         self.op = ModProxy(modrng, mixed)
         self.modrng, self.mixed = modrng, mixed
         self.old_models = [m for tag, m, ok in c08.corner_models() if tag == "opset13-relu"]
+        # an inlined model that spells the default domain 'ai.onnx' (the two spellings must be folded before taking the maximum)
+        import onnx
+        from onnx import helper as oh, TensorProto as TP
+        g = oh.make_graph([oh.make_node("Relu", ["x"], ["y"])], "g", [oh.make_tensor_value_info("x", TP.FLOAT, [2])], [oh.make_tensor_value_info("y", TP.FLOAT, [2])])
+        self.old_models.append(oh.make_model(g, opset_imports=[oh.make_operatorsetid("ai.onnx", 15)], ir_version=8))
 
     def make_function(self, depth=0):
         rng = self.rng
@@ -93,8 +98,17 @@ class GenM(B.GenX):
             return ML[mv].scaler(x, offset=[1.0, 2.0], scale=[2.0, 0.5])
         if k < 0.13:
             self.count("Inline-old")
-            m = self.old_models[0]
+            m = rng.choice(self.old_models)
             return list(B.inline(m)(self._same2(rng.choice(pool))).values())[0]
+        if k < 0.155:
+            # the same operator type from two modules between which its schema changed (18: axes became an input), newer form first
+            self.count("SchemaPair")
+            x = self._same2(rng.choice(pool))
+            name = rng.choice(["reduce_max", "reduce_min", "reduce_mean", "reduce_prod"])
+            newer = getattr(MODS[18], name)(x, keepdims=1)
+            older = getattr(MODS[17], name)(x, axes=[0], keepdims=1)
+            y = MODS[17].add(newer, older)
+            return MODS[19].identity(y) if rng.random() < 0.7 else y
         if k < 0.17:
             self.count("ReduceMax(axes attr)")  # version-13 node (axes attribute): invalid unless converted when the model is >= 18
             x = self._same2(rng.choice(pool))
@@ -261,7 +275,7 @@ def run(run: Run) -> int:
             mech = "body-adapted-against-body-version" if (in_body and ("Unrecognized attribute" in msg or "No Op registered" in msg or "Bad node spec" in msg)) else None
             if mech is None:
                 mech = "converter-name-clash" if ("_v_" in msg or "SSA" in msg) else \
-                    "rank-unknown-operand" if ("does not specify the shape" in msg or ("shape" in msg.lower() and "infer" in msg.lower())) else "other"
+                    "rank-unknown-operand" if ("does not specify the shape" in msg or "Field 'shape' of 'type' is required but missing" in msg or ("shape" in msg.lower() and "infer" in msg.lower())) else "other"
             run.fail("impl", f"C09/mixed-program-does-not-build/{mech}",
                      f"a program mixing shipped opset modules does not build: {c.impl}: {msg[:160]}", {"case": B.describe(c)})
             continue
